@@ -80,6 +80,15 @@ class Rec:
     def __call__(self, x, latent, **kw):
         self.calls.append((numpy.array(x, copy=True), numpy.array(latent, copy=True), dict(kw)))
         v = self.A @ numpy.asarray(latent, dtype=float) + self.off
+        ree = getattr(self, "reenter", None)
+        if ree is not None and not getattr(self, "_busy", False):
+            # a callback that asks the SAME problem about another candidate (e.g. to express an objective relative to a
+            # reference solution) - legitimate re-entrancy; the numbers it gets are not used, only the side effects matter
+            self._busy = True
+            try:
+                ree()
+            finally:
+                self._busy = False
         return numpy.maximum(v, 0.0) if self.relu else v
 
 
@@ -216,6 +225,10 @@ def case_constructor(ctx, c, classes, fams):
         except Exception as e:
             ctx.raised(cname + " constructor", e); continue
         x = render(enc, cnt, g)
+        if not default_obj and g.random() < 0.25:
+            other = g.choice(n, k, replace=False); xo_ = render(enc, numpy.bincount(other, minlength=n), g)
+            To.reenter = (lambda p_=prob, xx=xo_: (p_.evalfn(xx), p_.latentfn(xx)))
+            icls += "/objective transformation re-enters the problem for another candidate"
         w = {"class": cname, "x": x, "data": {a: b for a, b in kw.items()}, "expected_latent": expected}
         try:
             lat = numpy.asarray(prob.latentfn(x), dtype=float)
@@ -248,8 +261,10 @@ def case_constructor(ctx, c, classes, fams):
             ctx.raised(cname + ".evalfn", e); continue
         eo = wo * (To.A @ expected); ei = wi * numpy.maximum(Ti.A @ expected + Ti.off, 0.0); ee = we * (Te.A @ expected)
         good = near(o, eo)[0] and near(gi, ei)[0] and near(hi, ee)[0]
-        fed = all(len(T.calls) == 1 and numpy.array_equal(T.calls[0][0], x) and near(T.calls[0][1], expected)[0] for T in ((Ti, Te) if default_obj else (To, Ti, Te)))
-        kwok = default_obj or (len(To.calls) == 1 and To.calls[0][2] == kwo)
+        reent = getattr(To, "reenter", None) is not None
+        fed = all((len(T.calls) == 1 or reent) and len(T.calls) >= 1 and any(numpy.array_equal(cl[0], x) and near(cl[1], expected)[0] for cl in T.calls)
+                  for T in ((Ti, Te) if default_obj else (To, Ti, Te)))
+        kwok = default_obj or ((len(To.calls) == 1 or reent) and To.calls[0][2] == kwo)
         ctx.check("C05.evalfn", good and fed and kwok, site + ".evalfn", "objectives/violations == weights x transformations(decision, latent)", icls,
                   witness=dict(w, got=[o, gi, hi], expected=[eo, ei, ee], transformations_fed_correctly=fed, kwargs_passed=kwok), coords=coords)
         # ---- pymoo interface row-wise equals evalfn
